@@ -63,7 +63,8 @@ where
         where
             A: serde::de::SeqAccess<'d>,
         {
-            let mut array = Vec::with_capacity(seq.size_hint().unwrap_or_default());
+            // The size hint comes from the (untrusted) input, do not let it drive the allocation.
+            let mut array = Vec::with_capacity(seq.size_hint().unwrap_or_default().min(64));
             while let Some(elem) = seq.next_element::<PossiblyUnknown<T>>()? {
                 if let PossiblyUnknown::Some(elem) = elem {
                     array.push(elem)
